@@ -167,6 +167,8 @@ class Recorder:
                 return
             fails = [Fail(sig, "".join(traceback.format_exception_only(type(e), e)).strip()[:400])]
         self.evaluations += tally.units
+        if tally.keys and not nt and len(self.samples) < self.MAX_SAMPLES:
+            self.samples.append(abbreviate(recipe))   # the recipe's sub-cases were the non-trivial units
         self.nontrivial.update(tally.keys)
         self.classes.update(tally.labels)
         for f in fails or ():
